@@ -1,7 +1,7 @@
 ------------------------------ MODULE Compare ------------------------------
 (* C19: comparisons and membership tests.                                    *)
 (*                                                                          *)
-(* Four families of cases, selected by Part; every case is a TLC behaviour   *)
+(* Five families of cases; every case is a TLC behaviour                     *)
 (* (Init picks the case, named actions evaluate it, the final state carries  *)
 (* the expected observation and is published for replay on compiled code).   *)
 (*                                                                          *)
@@ -9,8 +9,11 @@
 (*           (log), a link that is falsy or raises ends the chain; the       *)
 (*           result is the VALUE of the last link evaluated (rich            *)
 (*           comparisons may return non-bool objects: value W below).        *)
-(*           Shapes (operator sequence + per-operand value domain) come from *)
-(*           the harness (IOEnv.SHAPES); TLC explores shape x value tuples.  *)
+(*           Shapes (operator sequence + per-operand value domain; one shape *)
+(*           = one compiled function) come from the harness (IOEnv.SHAPES);  *)
+(*           TLC explores shape x value tuples.  Part = "shapes" runs chain, *)
+(*           pair, member and strin cases in one model, Part = "switch" the  *)
+(*           if/elif chains (enumerated by the spec itself).                 *)
 (*  "member" x in / not in  (m1, ..) | [..] | {..} | {m: _, ..}: reference = *)
 (*           hash check for set/dict, then identity-or-equality scan.        *)
 (*           Implementation-shaped: FlattenInListTransform (x == m1 or ..,   *)
@@ -198,9 +201,12 @@ IsSwitch(fam, chain) == LET cs == AllConds(fam, chain) IN Len(cs) >= 2 /\ ~HasDu
 AnySwitch(fam, chain) == IsSwitch(fam, chain) \/ \E j \in DOMAIN chain : LET cs == CondsOf(fam, chain[j]) IN Len(cs) >= 2 /\ ~HasDup(cs)
 \* the C compiler's view: labels are integer constant expressions, all distinct
 WellFormed(fam, chain) == LET cs == AllConds(fam, chain) IN ~HasDup([i \in DOMAIN cs |-> cs[i][2]])
-SwitchImpl(fam, chain, x) == IF ~IsSwitch(fam, chain) THEN Sequential(chain, x)
-                             ELSE IF ~WellFormed(fam, chain) THEN -1      \* not a C program
-                             ELSE Sequential(chain, x)                    \* labels distinct: at most one arm holds x
+SwitchImplRow(fam, chain) ==
+  LET isw == IsSwitch(fam, chain)
+      wf  == WellFormed(fam, chain)
+  IN [x \in Subjects |-> IF ~isw THEN Sequential(chain, x)
+                         ELSE IF ~wf THEN -1                 \* not a C program
+                         ELSE Sequential(chain, x)]          \* labels distinct: at most one arm holds x
 
 ---------------------------------------------------------------------------
 VARIABLES c, pc, k, log, out
@@ -318,7 +324,7 @@ StrinOK == (c.part = "strin" /\ pc = "done") =>
              /\ (StrinHazard => (c.x.v \notin 0..255 \/ (c.x.v >= 128 /\ Cardinality(Range(c.cs)) >= 2)))
 StrinStrict == (c.part = "strin" /\ pc = "done") => ~StrinHazard
 
-SwitchHazard == \E x \in Subjects : SwitchImpl(c.fam, c.arms, x) # Sequential(c.arms, x)
+SwitchHazard == SwitchImplRow(c.fam, c.arms) # [x \in Subjects |-> Sequential(c.arms, x)]
 SwitchOK == (c.part = "switch" /\ pc = "done") =>
              /\ \A x \in Subjects : out[x] \in 0..Len(c.arms)
              /\ \A x \in Subjects : out[x] # 0 => Matches(c.arms[out[x]], x) /\ \A j \in 1..(out[x] - 1) : ~Matches(c.arms[j], x)
